@@ -6,6 +6,8 @@ phases (VERIF_PHASES): mc    exhaustive model checking of the repaired implement
                        mbt   scenarios enumerated by TLC, concretised and run on the real code over sockets,
                              the recorded exchanges evaluated by TLC against the contract (ProxyMsg_Trace)
 """
+import os
+
 from props import _proxymsg as pm
 
 PKG = "pkg/object/httpserver"
@@ -24,9 +26,9 @@ def mc_cfg(fixed, quick):
         ", ".join('"%s"' % f for f in fixed), sp[0], sp[1])
 
 
-def gen_cfg(quick):
+def gen_cfg(quick, mode):
     sp = ("ReqScnQuick", "RespScnGenQuick") if quick else ("ReqScn", "RespScn")
-    return "SPECIFICATION Spec\nCONSTANTS\n  ReqSpace <- %s\n  RespSpace <- %s\n" % sp
+    return "SPECIFICATION Spec\nCONSTANTS\n  ReqSpace <- %s\n  RespSpace <- %s\n" % sp + "  Mode = \"%s\"\n" % mode
 
 
 ALL = ["F5", "F6", "F7", "HEAD", "METRIC", "ABORT", "CLONE", "MULTI"]
@@ -44,6 +46,11 @@ def run(ctx):
                        "about 1 case in 5 is a warm-up exchange followed by 2-4 requests in flight at the same time on one proxy instance (every backend "
                        "answer under way before any is completed), each a recorded exchange judged by itself; the media type of the backend's response and "
                        "of the client's request body rotates over none|octet-stream|text|json|event-stream|grpc|multipart; "
+                       "the cases are drawn by stratum: request scenarios from the load-balancing policies (default|roundRobin|random|weightedRandom with / "
+                       "without weights|ipHash|headerHash x address kind x keepHost x request mode x failing attempts, pools of two servers), the path / query "
+                       "classes (escapes, empty segments at the start / inside / at the end, dot segments) and the rest; response scenarios from plain | memory "
+                       "cache | backend breaks off | gzip bodies of several members | in flight at the same time; TLC first enumerates the scenarios, then "
+                       "computes the vector (features, predicted outcome) of those drawn; "
                        "trace = the same recorded exchange; non-trivial = distinct (request scenario class, response scenario, cache hit) "
                        "triples that exercise a non-default toggle")
     ctx.assumptions += [
@@ -62,6 +69,10 @@ def run(ctx):
         "304 responses: Content-Type and Content-Length are not demanded (RFC 7232 4.1; Go's net/http server removes them from every 304)",
         "Content-Length of the bodiless answer to HEAD is an end-to-end header: it must arrive unchanged unless a ResponseAdaptor replaced the "
         "body or the Content-Encoding the client is told differs from the backend's (the proxy recoded the representation)",
+        "a gzip body may consist of several members (RFC 1952 2.2); its content is the concatenation of the members' contents - that is what "
+        "'once any Content-Encoding is undone' and an adaptor's decompress have to yield",
+        "empty path segments ('//a', '/a//b', '///') and dot segments are part of the path: they must reach the backend unchanged",
+        "the load-balancing policy only selects the server of an attempt; the Host rule is judged against the server the request arrived at",
         "exchanges in flight at the same time are each judged by the same per-exchange contract; backend responses that break off and retried "
         "requests are exercised sequentially only",
     ]
@@ -94,10 +105,11 @@ def _leads(ctx):
     ctx.log("leads: TLC finds a contract violation for each of %s when it is left in the model" % (ALL + ["GZOWN"]))
 
 
-def _pair(ctx, vecs):
+def _pair(ctx, vecs, vector_of):
     """Pairs request-direction and response-direction scenarios into cases (seeded).  The response
-    scenarios are drawn by stratum (plain / memory cache / backend breaks off) so that every run
-    contains enough sequences and enough broken backend responses."""
+    scenarios are drawn by stratum (plain / memory cache / backend breaks off / ...) so that every run
+    contains enough sequences and enough broken backend responses.  vecs: the scenarios of the two spaces
+    (generator mode "scn"); vector_of(list of drawn scenarios) -> {key: full vector} (generator mode "vec")."""
     rnd = pm.rng(ctx, 303)
     reqs = [v for v in vecs if v["dir"] == "req"]
     resps = [v for v in vecs if v["dir"] == "resp"]
@@ -127,7 +139,7 @@ def _pair(ctx, vecs):
         ctx.inconclusive("vector generation produced no scenario for one of the strata %s %s" % (sorted(strata), sorted(rstrata)))
     n = 1200 if ctx.quick else 12000
     bodyless = [v for v in reqs if v["s"]["rbody"] == "none"]
-    cases = []
+    drawn = []
     taken = {k: 0 for k in list(strata) + list(rstrata)}
     for i in range(n):
         st = ("plain", "cache", "plain", "short", "multi", "cache", "par", "plain", "cache", "plain", "short", "par")[i % 12]
@@ -140,6 +152,11 @@ def _pair(ctx, vecs):
             rv = nofail[i % len(nofail)]
         if pv["s"]["head"] and rv["s"]["rbody"] != "none":
             rv = bodyless[i % len(bodyless)]
+        drawn.append((i, st, rv, pv))
+    full = vector_of([x[2] for x in drawn] + [x[3] for x in drawn])
+    cases = []
+    for i, st, rv, pv in drawn:
+        rv, pv = full[_key(rv)], full[_key(pv)]
         exps = []
         for pexp in pv["exps"]:       # one prediction per request of the sequence
             exp = dict(rv["exp"])     # times, pathrel, blabel, hostis from the request scenario
@@ -155,6 +172,10 @@ def _pair(ctx, vecs):
             case["par"] = degrees[(i // 12 + ctx.seed) % len(degrees)]
         cases.append(case)
     return cases
+
+
+def _key(v):
+    return v["dir"] + pm.jdump(v["s"])
 
 
 def _sig(case, clause, k=1):
@@ -183,9 +204,23 @@ def _sig(case, clause, k=1):
 
 
 def _mbt(ctx):
-    vecs = ctx.tlc_dump("ProxyMsg_Gen", gen_cfg(ctx.quick), label="scenario vectors", timeout=900, count=False)
-    cases = _pair(ctx, vecs)
-    ctx.log("%d scenario vectors, %d cases" % (len(vecs), len(cases)))
+    vecs = ctx.tlc_dump("ProxyMsg_Gen", gen_cfg(ctx.quick, "scn"), label="scenarios", timeout=900, count=False)
+    nvec = [0]
+
+    def vector_of(drawn):
+        """the full vectors (features, predicted outcomes) of the scenarios drawn, computed by TLC"""
+        pick = {_key(v): {"dir": v["dir"], "s": v["s"]} for v in drawn}
+        os.environ["VERIF_PICK"] = ctx.write_ndjson("c03_pick.ndjson", [pick[k] for k in sorted(pick)])
+        full = {_key(v): v for v in ctx.tlc_dump("ProxyMsg_Gen", gen_cfg(ctx.quick, "vec"), label="vectors of the scenarios drawn",
+                                                 timeout=900, count=False)}
+        missing = [k for k in pick if k not in full]
+        if missing:
+            ctx.inconclusive("vector generation returned no vector for %d of %d scenarios, e.g. %s" % (len(missing), len(pick), missing[0]))
+        nvec[0] = len(full)
+        return full
+
+    cases = _pair(ctx, vecs, vector_of)
+    ctx.log("%d scenarios, %d of them drawn (vectors computed), %d cases" % (len(vecs), nvec[0], len(cases)))
     crashed = []
 
     def on_crash(crash, case):
